@@ -44,4 +44,7 @@ def all_harnesses():
 
 
 def harnesses(tier, seed):
-    return select(all_harnesses(), tier, seed, 4, budget=3600, max_one=260)
+    hs = all_harnesses()
+    for h in hs:
+        h.priority = h.core and h.name.startswith('c11_firblock_k2_d1_c3_f3d0_f3d0')
+    return select(hs, tier, seed, 4)
